@@ -30,6 +30,7 @@ class Cfg:
     sort_then_slice_prob: float = 0.0
     twin_leaf_prob: float = 0.12
     mapping_payloads: bool = True
+    max_expanded_nodes: int = 60  # size of the program with shared operands written out
 
 
 class Gen:
@@ -38,6 +39,7 @@ class Gen:
         self.cfg = cfg
         self.leaves: dict = {}
         self.nmat = 0
+        self._sizes: dict = {}
 
     # ------------------------------------------------------------ leaves
     def leaf(self, engine, want_cols=None, allow_special=True):
@@ -222,6 +224,8 @@ class Gen:
                 if depth <= 0:
                     continue
                 new = self.binary(state, op, depth)
+                if new and self.expanded_size(new[0]) > cfg.max_expanded_nodes:
+                    continue  # keep compiled statements within what SQLite plans in reasonable time
             else:
                 if want_cols is not None and op == "proj":
                     continue
@@ -233,6 +237,20 @@ class Gen:
         if want_cols is not None and state[1] != frozenset(want_cols):
             state = ["proj", state[0], sorted(want_cols), None], frozenset(want_cols), state[2]
         return state
+
+    def expanded_size(self, prog) -> int:
+        """Number of nodes of the program with shared operands written out (what an engine has to
+        compile); binary operations on shared operands grow this exponentially."""
+        k = id(prog)
+        if k not in self._sizes:
+            if prog[0] == "leaf":
+                n = 1
+            elif prog[0] in ("chain", "join"):
+                n = 1 + self.expanded_size(prog[1]) + self.expanded_size(prog[2])
+            else:
+                n = 1 + self.expanded_size(prog[1])
+            self._sizes[k] = (n, prog)  # keep prog alive so that id() stays unique
+        return self._sizes[k][0]
 
     def to_engine(self, state, eng):
         if state[2] == eng:
